@@ -21,7 +21,7 @@ RULE = ("cases from rng(seed, 6, 0, i), mode = i mod 7: (0) well-posed cluster g
         "edges (singular); (5) all vertices fixed; (6) histories of 2..4 optimize() calls on one graph with fixed flags switched on/off between calls, each call compared with a fresh "
         "graph built in the same state; initial poses may share storage (same pose object / numpy array). all pose types, fix_first_pose in {True, False}. distinct = spec fingerprint + mode; non-trivial = "
         ">=1 fixed vertex with incident edges of non-zero error, or a fault case.")
-REQ = ["eval:fixed-pose-unchanged", "eval:fixed-flags", "mode:0", "mode:1", "mode:2", "mode:3", "mode:4", "mode:5", "mode:6", "eval:same-as-fresh-graph-in-same-state", "class:shared_pose_storage", "outcome:returned", "class:isolated_fixed_vertex",
+REQ = ["eval:fixed-pose-unchanged", "eval:fixed-flags", "mode:0", "mode:1", "mode:2", "mode:3", "mode:4", "mode:5", "mode:6", "eval:same-as-fresh-graph-in-same-state", "class:shared_pose_storage", "class:no_vertex_marked_fixed", "outcome:returned", "class:isolated_fixed_vertex",
        "class:singular_solve", "class:fault_injected", "eval:gn-step-applied", "class:nonfinite_free_vertices_observed"]
 PLAN = {
     "quick": {"cases": 1800, "soft_s": 80, "min_nontrivial": 500, "require": REQ},
@@ -96,6 +96,19 @@ def run_case(ctx, i, rng):
     nontrivial = False
     if mode == 6:
         return history_case(ctx, i, rng, ffp)
+    if mode == 1 and rng.random() < 0.3:
+        # nothing marked fixed: fix_first_pose=False must not fix anything (well-posed through priors, or singular)
+        anchored = bool(rng.random() < 0.6)
+        spec, labels = gen.cluster_graph(rng, fix_mode=("none_prior" if anchored else "first"))
+        for v in spec["vertices"]:
+            v["fixed"] = False
+        ctx.count("class:no_vertex_marked_fixed")
+        g = M.build(spec)
+        kw = {"max_iter": int(rng.integers(1, 6)), "tol": 0.0, "fix_first_pose": ffp}
+        case = {"graph": {k: v for k, v in spec.items() if k != "truth_by_id"}, "kwargs": kw, "mode": mode}
+        observe_run(ctx, g, kw, dict(feats, nothing_marked_fixed=True), case)
+        ctx.nontrivial(gen.fingerprint({"spec": spec, "mode": "nofix", "ffp": ffp}))
+        return
     if mode == 0:
         spec, labels = gen.cluster_graph(rng, alias=bool(rng.random() < 0.4))
         if "shared_pose_storage" in labels:
